@@ -14,7 +14,9 @@ PROPS["C08"] = dict(
     nontrivial=lambda r: any(t for t in (r.get("tags") or []) if not t.startswith("ty:")),
     rule="one case per expression tree (typed, every operator choice on every tree shape up to MaxOps operators, "
          "plus spy/unary/conditional/filter families); each case is rendered with minimal and full parentheses, "
-         "and small trees in 3 spacings x 10 syntactic positions; non-trivial = has at least one operator",
+         "and small trees in 3 spacings x 12 syntactic positions (incl. include-with under only, and as the condition of if / "
+         "elseif / not / ?: where its truth value is printed); containment in lists of 50 / 52 / 55 / 60 elements with literal and "
+         "computed left operands; non-trivial = has at least one operator",
     assumptions=[
         "reference semantics TwigSem.tla (Eval/Exec) is the oracle; TLC integers are 32-bit so the fragment stays within +-10^9",
         "the Go harness only concatenates source pieces, builds context values and compares bytes / spy counters",
@@ -28,7 +30,9 @@ PROPS["C09"] = dict(
     rule="one case per program of the families ifc/ifl (if-chains over condition values of every type, from context and as "
          "literals), loop (lists, typed slices, strings incl. multi-byte, ranges; all 7 loop counters printed), kv, nest "
          "(2 and 3 levels, outer counters printed after the inner loop), setp (all sequences of set/print/if/for statements "
-         "up to MaxSetLen); every case is non-trivial (contains at least one control construct)",
+         "up to MaxSetLen), ifnamed (values of defined and sized Go scalar types as conditions), rec (the same for tag active "
+         "several times: recursive include and recursive macro over trees, counters printed after the recursion), global (set and "
+         "loop variables over engine globals of the same name); every case is non-trivial (contains at least one control construct)",
     assumptions=["reference semantics TwigSem.tla is the oracle", "ranges only with a step sign consistent with start/end; "
                  "loop variables are not read after their loop; set targets are defined before any loop reads them"],
 )
@@ -38,8 +42,9 @@ PROPS["C10"] = dict(
     stages=[dict(name="enum", module="MC_C10", cfg={"quick": "MC_C10_quick.cfg", "thorough": "MC_C10_thorough.cfg"},
                  timeout={"quick": 300, "thorough": 1500})],
     nontrivial=lambda r: "chain:0" not in (r.get("tags") or []),
-    rule="one case per extends chain: child levels x per-block definition kind (absent/text/empty/text+parent()/parent()) "
-         "x base kinds x 5 base layouts (top, nested, loop, if, if-false) + dynamic parent name; non-trivial = chain length >= 1",
+    rule="one case per extends chain: child levels x per-block definition kind (absent/text/empty/text+parent()/parent()/"
+         "parent() twice/override that nests a definition of the other block) x base kinds x 6 base layouts (top, nested, loop, if, "
+         "if-false, layout that includes another chain with the same block names) + dynamic parent name; non-trivial = chain length >= 1",
     assumptions=["reference semantics TwigSem.tla (LevelDefining/BlockDef/parent()) is the oracle",
                  "extending templates contain only extends, text and blocks at top level"],
 )
@@ -49,7 +54,10 @@ PROPS["C11"] = dict(
     stages=[dict(name="enum", module="MC_C11", cfg={"quick": "MC_C11_quick.cfg", "thorough": "MC_C11_thorough.cfg"},
                  timeout={"quick": 300, "thorough": 900})],
     rule="one case per (with, only, ignore missing, name form, behaviour of the included template, placement); two real "
-         "renders per case: the program and the program with the include removed (2-run non-interference); every case is non-trivial",
+         "renders per case: the program and the program with the include removed (2-run non-interference); two-level includes; "
+         "defined-tests in every read probe; scenarios with relative names (./x ../x from two directories, in loops, under "
+         "extends) and with a loader failure / a missing template under ignore missing, each served directly and through the "
+         "loader layouts only / front / back / chain; every case is non-trivial",
     assumptions=["reference semantics TwigSem.tla is the oracle; TLC checks NonInterference on the model itself",
                  "inside macros every variable that is read is a parameter (the property does not say whether a macro sees its caller's variables)"],
 )
@@ -59,7 +67,9 @@ PROPS["C12"] = dict(
     stages=[dict(name="enum", module="MC_C12", cfg={"quick": "MC_C12_quick.cfg", "thorough": "MC_C12_thorough.cfg"},
                  timeout={"quick": 300, "thorough": 900})],
     rule="one case per (arity, default subset, argument count, body kind, call site); each rendered in every applicable call "
-         "form (local, _self, import as, from import, from import as); TLC checks FormsAgree on the model; all non-trivial",
+         "form (local, _self, import as, from import, from import as); macros named like built-in functions (max range min date "
+         "length); default expressions that are spy calls, rendered twice on the same engine with the callback counts compared; "
+         "TLC checks FormsAgree on the model; all non-trivial",
     assumptions=["reference semantics TwigSem.tla (BindParams/CallMacro) is the oracle",
                  "macro bodies read only their parameters and own assignments; sibling macro calls only in the local form"],
 )
@@ -71,7 +81,9 @@ PROPS["C06"] = dict(
     nontrivial=lambda r: "pol:allow" not in (r.get("tags") or []),
     rule="one case per (position of the forbidden name, function|filter, route below the sandbox boundary, policy); spy "
          "callbacks count invocations; forbidden => security error and the forbidden spy's count is 0 whatever the outcome, "
-         "outside-the-sandbox spies counted 1; non-trivial = the policy forbids the name",
+         "outside-the-sandbox spies counted 1; statements before the forbidden name (empty / non-empty spaceless, allowed calls, "
+         "includes in a loop, macro call); each case 4 runs: plain, policy maps with explicit false entries, and the same engine "
+         "re-rendered after its policy was replaced / edited in place by the opposite one; non-trivial = the policy forbids the name",
     assumptions=["TLC checks Confined on the model (sandbox flag inherited by construction in TwigSem)",
                  "macro names, parent and the helper spies are on the allow-list: the property does not say whether a macro call is a 'function'",
                  "the engine's apply tag takes a bare filter name, so the apply position uses an argument-less spy filter"],
@@ -84,7 +96,9 @@ PROPS["C17"] = dict(
     nontrivial=lambda r: "kind:base" not in (r.get("tags") or []),
     rule="corpus of template structures with a spy at every callback position; TLC learns the invocation counts of the "
          "fault-free run and enumerates every single-fault placement (spy j fails at its m-th invocation, incl. one placement "
-         "beyond the last invocation), every loader fault and a list of unresolved filter/function/test/macro/template names; "
+         "beyond the last invocation), every loader fault (loader alone, behind / before an empty loader, inside a ChainLoader) and a "
+         "list of unresolved filter/function/test/macro/template names (incl. inside for-sequence filter chains; spy callbacks "
+         "registered as range / length); "
          "each case is rendered 6 ways (debug on/off x Render / RenderTo(bytes.Buffer) / RenderTo(plain writer)); "
          "non-trivial = a fault or unresolved name is present",
     assumptions=["TLC checks Surfaces on the model; Exec decides only whether the faulted invocation is reached",
@@ -102,7 +116,9 @@ PROPS["C13"] = dict(
     nontrivial=lambda r: "ndash:0" not in (r.get("tags") or []),
     rule="corpus of templates covering every tag kind x set D of dashed delimiter sides (all subsets for small templates, "
          "singletons/pairs/all/all-but-one otherwise) x 6 whitespace styles of the neighbouring text; two real renders per "
-         "case (dashed source, hand-trimmed source) which must agree with each other and with the model; non-trivial = D non-empty",
+         "case (dashed source, hand-trimmed source) which must agree with each other and with the model; stage sweep: fully dashed "
+         "templates whose token count passes through every value from ~200 to ~1100 (small tokenizer) and the large-template "
+         "sweep of MC_C14; non-trivial = D non-empty",
     assumptions=["TLC checks on the model that the two formulations coincide for D = {} and that a dash only removes whitespace",
                  "text pieces are symbolic in Exec and substituted afterwards, so the expectation does not depend on the text content"],
 )
@@ -114,7 +130,8 @@ PROPS["C14"] = dict(
     nontrivial=lambda r: True,
     rule="C13 corpus (every tag kind, with and without dashes) x pad position (each text piece, all text pieces) x pad "
          "content (plain text, text with lone braces/quotes/backslash, comment, empty print tags) ; one render per pad length "
-         "0 / 1 / 4000 / 20480 (/ 102400 / 300000) and per exact template size 4095..4098, 8192; thorough also RenderTo writers",
+         "0 / 1 / 4000 / 20480 (/ 102400 / 300000) and per exact template size 4095..4098, 8192; token-count sweeps below and "
+         "above the large-template threshold (every token count up to ~1100 / ~2100); thorough also RenderTo writers",
     assumptions=["metamorphic: Exec copies text pieces verbatim, so pad tokens travel from source to expected output",
                  "pads stand in the middle of a text piece, never next to a delimiter"],
 )
@@ -139,7 +156,8 @@ PROPS["C07"] = dict(
                  trace=dict(module="Trace_C07", cfg="Trace_C07.cfg"))],
     nontrivial=lambda r: "vt:str" in (r.get("tags") or []),
     rule="every string up to MaxLen over {< > & \" ' a ; # 3 9 e-acute euro 0xFF NUL} (+ already-escaped seeds, ints, null) "
-         "x 9 positions (print, after/before another filter, apply, macro body, included template, if body, set, concatenation) "
+         "x 16 positions (print, after/before another filter, apply, macro body, included template, if body, set, concatenation, "
+         "after raw, the filter applied to its own output in a chain / via set / via apply / under the other name) "
          "x names escape/e (metamorphic pair); the engine's outputs are recorded and TLC evaluates ValidEscape on each",
     assumptions=["accepted references: &amp; &lt; &gt; &quot;|&#34;|&#x22; &#39;|&#039;|&#x27;|&apos;",
                  "TLC checks on the model that the reference Escape has no raw special character and decodes back to the input"],
@@ -153,7 +171,9 @@ PROPS["C19"] = dict(
     rule="every string up to MaxStr over {a B SP e-acute LF}, every int / string list up to MaxList (untyped, []int, []string), "
          "maps (untyped, map[string]int, map[string]string) x the filter chains of the property's equations; slice with every "
          "start/length in -SliceRange..SliceRange and omitted length on strings and lists; values leave the template through the "
-         "harness' vdump filter. upper/lower/trim/capitalize are checked for idempotence only (two real renders)",
+         "harness' vdump filter; number_format on exact decimals around the group boundaries with 0..3 places and default / explicit / "
+         "empty / multi-character separators; join o split over lists with empty and white-space strings; loop count = length over "
+         "filter-chain sequences and maps; first / last on maps. upper/lower/trim/capitalize are checked for idempotence only",
     assumptions=["TLC checks the equations (Laws) on the reference definitions in TwigSem over the same input space",
                  "string lists for sort use strings on which every sensible collation agrees; map results are compared order-free"],
 )
@@ -189,7 +209,8 @@ PROPS["C15"] = dict(
     nontrivial=lambda r: True,
     rule="every history of 4 operations over render / register / loader put, delete / cache, auto-reload, development-mode toggles "
          "on 4 names and 2 loaders (one timestamp-aware) that ends in a render, plus TLC random walks of 14 operations; after EVERY "
-         "operation the served version (or not-found), each loader's Load-call counters and the cached names are compared with the model",
+         "operation the served version (or not-found), each loader's Load-call counters and the cached names are compared with the model; "
+         "a sample of all histories is replayed a second time with loader 2 as a real FileSystemLoader on a scratch directory",
     assumptions=["CacheLoaders.tla Render(n) is the rule set; TLC checks the property's six sentences P1..P6 as action properties",
                  "a content change always raises the timestamp; deletion only in the plain loader; a name whose current source was "
                  "registered is rendered only while the cache is on (what a registered string means with the cache off is not determined)"],
@@ -278,7 +299,8 @@ PROPS["C16"] = dict(
     rule="sources (10 ASTs incl. macros, include, extends, invalid UTF-8, empty; literal sources of 4097 / 65535 / 65536 bytes / 1 MiB) x "
          "names (ASCII, multi-byte, NUL, 0xFF, path-like, with blank) x timestamps (0, -1, 2^62, now) x 2 contexts; per case: field "
          "identity through Serialize/Deserialize, compiled form registered on a second engine / loaded from data / saved and loaded "
-         "by the compiled loader renders like the source (= the reference semantics); serialised bytes validated by Trace_C16",
+         "by the compiled loader renders like the source (= the reference semantics); the bytes handed out stay unchanged while "
+         "other templates are serialised; serialised bytes validated by Trace_C16",
     assumptions=["CompiledFmt.tla: TLC checks Decode(Encode(x)) = x and that every strict prefix is rejected, on a bounded record space",
                  "file-based steps only for names that are valid file names"],
 )
@@ -300,3 +322,8 @@ PROPS["C05"] = dict(
 
 import c02
 PROPS["C02"] = dict(run=c02.run, replay=c02.replay)
+
+# every case of the stateless properties is rendered a second time on the SAME engine (cached template, pooled
+# objects): the expectation holds for every render, and what the engine keeps between renders must not show
+for _p in ("C03", "C04", "C06", "C07", "C08", "C09", "C10", "C11", "C12", "C13", "C14", "C17", "C18", "C19"):
+    PROPS[_p].setdefault("args", ("-again", "1"))
